@@ -15,8 +15,8 @@ Math(x) ==
   CASE x.op = "atom" -> x.p
     [] x.op = "one"  -> OneT
     [] x.op = "zero" -> ZeroT
-    [] x.op = "mul"  -> MT(<<Math(x.a), Math(x.b)>>)
-    [] x.op = "div"  -> FT(Math(x.a), Math(x.b))
+    [] x.op \in {"mul", "rmul"} -> MT(<<Math(x.a), Math(x.b)>>)
+    [] x.op \in {"div", "rdiv"} -> FT(Math(x.a), Math(x.b))
     [] x.op = "marg" -> ST(x.r, Math(x.a))
     \* conditioning on r: divide by the marginal over every other free random variable (the value of an
     \* intervention subscript is a parameter of the distribution, not one of its variables)
@@ -45,8 +45,8 @@ DevMathM(x, mode) ==
   CASE x.op = "atom" -> x.p
     [] x.op = "one"  -> OneT
     [] x.op = "zero" -> ZeroT
-    [] x.op = "mul"  -> MT(<<DevMathM(x.a, mode), DevMathM(x.b, mode)>>)
-    [] x.op = "div"  -> FT(DevMathM(x.a, mode), DevMathM(x.b, mode))
+    [] x.op \in {"mul", "rmul"} -> MT(<<DevMathM(x.a, mode), DevMathM(x.b, mode)>>)
+    [] x.op \in {"div", "rdiv"} -> FT(DevMathM(x.a, mode), DevMathM(x.b, mode))
     [] x.op = "marg" -> ST(x.r, DevMathM(x.a, mode))
     [] x.op = "cond" -> LET e == DevMathM(x.a, mode)
                             occ == IF e.t = "P" /\ mode = "p" THEN {v.n : v \in {w \in TermVars(e) : w.s = 0}} ELSE AllOcc(e)
